@@ -7,7 +7,10 @@
    Layers:  (1) classes of values and the DFA states in which they are neutral (Tmpl/Classes);
             (2) validator regular expressions are inside / outside those classes (Tmpl/Regex,
                 Tmpl/Validators) -- positive theorems for the sound validators, refutations with the
-                offending string for the unsound ones (F06 F27 F28 F29, grpcService);
+                offending string for the unsound ones (F06 F28 F29 F54).  The validators repaired in
+                /repo (F27 rewrites d7c2e82, F26 limit-req-* 3e8e85f, F52 return headers 7a5e973,
+                F62 match.send c1888e6) are transcribed as they are NOW and have safety theorems;
+                their former refutations are history and are no longer stated here;
             (3) the abstract interpreter over the translated templates (Tmpl/Analyze) and its
                 soundness: the structure of a rendering depends only on the control choices.
    The obligations  file_ok <translated template> = true  are discharged by vm_compute against
@@ -134,6 +137,36 @@ Theorem C06_return_type_dq_safe : forall s, matches return_type s = true -> run 
 Proof. exact return_type_dq_safe. Qed.
 Print Assumptions C06_return_type_dq_safe.
 
+(* nginx.org/rewrites  ^/[^\s{};$\\]*$  glued bare after proxy_pass http://upstream: no event, stays in
+   the word, and the template's terminator that follows is exactly one Semi (F27, repaired) *)
+Theorem C06_ing_rewrite_safe :
+  forall s, matches ing_rewrite s = true -> exists q', run QBare s = (q', []) /\ In q' [QBare].
+Proof. exact ing_rewrite_safe. Qed.
+Print Assumptions C06_ing_rewrite_safe.
+
+Theorem C06_ing_rewrite_then_semi :
+  forall s, matches ing_rewrite s = true -> run QBare (s ++ ";") = (QBetween, [TokEnd; Semi]).
+Proof. exact ing_rewrite_then_semi. Qed.
+Print Assumptions C06_ing_rewrite_then_semi.
+
+(* nginx.org/limit-req-key  ^(\$\{\w+\}|\$\w+|[^\s;{}\\dq'#$])+$  printed bare as the first argument of
+   limit_req_zone: one bare word, no event (F26, repaired); the rate  ^(\d+)(r/s|r/m)$  is a plain word *)
+Theorem C06_limit_req_key_bare_safe :
+  forall s, matches limit_req_key s = true -> exists q', run QBetween s = (q', []) /\ In q' [QBare; QVar].
+Proof. exact limit_req_key_bare_safe. Qed.
+Print Assumptions C06_limit_req_key_bare_safe.
+
+Theorem C06_ing_rate_word : forall s, matches ing_rate s = true -> in_class CWord s.
+Proof. exact ing_rate_word. Qed.
+Print Assumptions C06_ing_rate_word.
+
+(* header names (IsHTTPHeaderName, now also for action.return.headers: F52, repaired) are plain words;
+   header values of a return action and the send string of a TransportServer health check match
+   (F62, repaired) are escaped strings: C06_escaped_dq_safe above *)
+Theorem C06_http_header_name_word : forall s, matches http_header_name s = true -> in_class CWord s.
+Proof. exact http_header_name_word. Qed.
+Print Assumptions C06_http_header_name_word.
+
 (* sizes, offsets and rates are plain words *)
 Theorem C06_size_word : forall s, matches size s = true -> in_class CWord s.
 Proof. exact size_word. Qed.
@@ -149,15 +182,6 @@ Print Assumptions C06_rate_word.
 
 (* ------------------------------------------------------------------ (2') refutations: validators
    that admit a string which is structural at the site they guard, with the witness *)
-
-(* F27  nginx.org/rewrites  ^/[^\s{};$]*$  glued bare after proxy_pass http://upstream *)
-Theorem C06_ing_rewrite_refuted :
-  (exists s, matches ing_rewrite s = true /\
-             run QBare s = (QBareEsc, []) /\
-             structural (snd (run QBare (s ++ ";"))) = []) /\
-  (matches ing_rewrite "/x" = true /\ structural (snd (run QBare ("/x" ++ ";"))) = [Semi]).
-Proof. exact ing_rewrite_refuted. Qed.
-Print Assumptions C06_ing_rewrite_refuted.
 
 (* F06  Ingress path  ^/[^\s;]*$  printed bare after "location " *)
 Theorem C06_ing_path_refuted :
@@ -190,12 +214,7 @@ Theorem C06_grpc_service_refuted :
 Proof. exact grpc_service_refuted. Qed.
 Print Assumptions C06_grpc_service_refuted.
 
-(* the repaired languages (fixes/F27.diff; what a repair of F28 / F29 / F54 would use) are safe *)
-Theorem C06_ing_rewrite_fixed_safe :
-  forall s, matches ing_rewrite_fixed s = true -> exists q', run QBare s = (q', []) /\ In q' [QBare].
-Proof. exact ing_rewrite_fixed_safe. Qed.
-Print Assumptions C06_ing_rewrite_fixed_safe.
-
+(* what a repair of F29 (and F28 / F54: Tmpl.ValidatorsProofs) would use is safe *)
 Theorem C06_ts_hash_fixed_safe :
   forall s, matches ts_hash_fixed s = true ->
     exists q' e, run QBetween s = (q', e) /\ structural e = [] /\ In q' [QBare; QVar].
